@@ -28,7 +28,8 @@ def corpus():
     return pairs
 
 
-def run_mfront(wd, inp, nd_seed=None, env_seed=None, iolog=None):
+def run_mfront(wd, inp, nd_seed=None, env_seed=None, iolog=None, before=()):
+    """before: other inputs treated by the SAME mfront invocation, ahead of inp (same interface)"""
     base = tfel_env()
     env = {k: base[k] for k in sorted(base) if k in ("PATH", "LD_LIBRARY_PATH", "HOME", "LANG")}
     env["LD_PRELOAD"] = VPRE
@@ -46,7 +47,7 @@ def run_mfront(wd, inp, nd_seed=None, env_seed=None, iolog=None):
             j = r.range(0, k); keys[k], keys[j] = keys[j], keys[k]
     env = {k: env[k] for k in keys}
     p = subprocess.run(["setarch", "-R", MF, "--interface=" + inp[1], "--search-path=" + os.path.dirname(inp[0]),
-                        "--search-path=" + os.path.join(REPO, "mfront/tests/properties"), inp[0]], cwd=wd, env=env, stdout=subprocess.PIPE, stderr=subprocess.STDOUT, text=True)
+                        "--search-path=" + os.path.join(REPO, "mfront/tests/properties")] + [b[0] for b in before] + [inp[0]], cwd=wd, env=env, stdout=subprocess.PIPE, stderr=subprocess.STDOUT, text=True)
     return p.returncode, p.stdout
 
 
@@ -67,8 +68,8 @@ def outputs_of_run(wd, iolog):
     return out
 
 
-VARIANTS_QUICK = ["seed", "seed", "repeat", "after-others", "after-other-interface", "env-order"]
-VARIANTS_THOROUGH = VARIANTS_QUICK + ["seed", "seed", "repeat", "after-others", "env-order", "seed"]
+VARIANTS_QUICK = ["seed", "seed", "repeat", "after-others", "after-other-interface", "env-order", "same-invocation"]
+VARIANTS_THOROUGH = VARIANTS_QUICK + ["seed", "seed", "repeat", "after-others", "env-order", "seed", "same-invocation"]
 
 
 def check_pair(root, idx, pair, all_pairs, variants, seed):
@@ -77,7 +78,17 @@ def check_pair(root, idx, pair, all_pairs, variants, seed):
     wd = os.path.join(pd, "run")
     res = {"pair": [os.path.basename(pair[0]), pair[1]], "variants": [], "viol": None, "files": 0, "nd": [0, 0, 0]}
 
+    def harvest():   # perturbation counters of the runs made since the last call (the log lives in the scratch directory)
+        ndl = os.path.join(pd, "nd.log")
+        if os.path.exists(ndl):
+            for l in open(ndl).read().splitlines():
+                f = l.split()
+                if len(f) >= 6:
+                    res["nd"][0] += int(f[1]); res["nd"][1] += int(f[3]); res["nd"][2] += int(f[5])
+            os.remove(ndl)
+
     def fresh():
+        harvest()
         shutil.rmtree(pd, ignore_errors=True)
         os.makedirs(wd)
 
@@ -104,6 +115,31 @@ def check_pair(root, idx, pair, all_pairs, variants, seed):
         lg = os.path.join(pd, "io.log")
         if os.path.exists(lg):
             os.remove(lg)
+        if v == "same-invocation":
+            # history inside one process: the input is the last of three inputs given to a single mfront invocation (same interface and
+            # family); only the files the baseline run wrote for this input are compared, and only when the whole invocation succeeds
+            fam = [q for q in all_pairs if q[1] == pair[1] and os.path.dirname(q[0]) == os.path.dirname(pair[0]) and q != pair]
+            others = [fam[(idx * 17 + 5 * k + vi) % len(fam)] for k in range(2)] if fam else []
+            bad = False
+            for nds in (None, nd):   # natural heap layout (freed blocks are re-used at the same addresses by the next input), then a perturbed one
+                if os.path.exists(lg):
+                    os.remove(lg)
+                rc, out = run_mfront(wd, pair, nd_seed=nds, iolog=lg, before=others)
+                if rc0 != 0 or rc != 0 or not others:
+                    res["skipped_same_invocation"] = res.get("skipped_same_invocation", 0) + 1
+                    break
+                got = {q: h for q, h in outputs_of_run(wd, lg).items() if q in ref}
+                res["variants"].append(hist)
+                if got != ref:
+                    diff = sorted(k for k in set(got) | set(ref) if got.get(k) != ref.get(k))
+                    res["viol"] = ("generated-files-differ", "variant %d (%s after %s in one mfront invocation, %s): %s differ from the files generated when the input is treated alone" % (
+                        vi, hist, [os.path.basename(o[0]) for o in others], "natural heap layout" if nds is None else "nd seed %d" % nds, diff[:4]), {"variant": vi, "history": hist, "nd_seed": nds, "files": diff[:8], "before": [o[0] for o in others]})
+                    bad = True
+                    break
+                fresh()
+            if bad:
+                break
+            continue
         rc, out = run_mfront(wd, pair, nd_seed=nd, env_seed=(nd if v == "env-order" else None), iolog=lg)
         got = outputs_of_run(wd, lg)
         res["variants"].append(hist)
@@ -115,12 +151,7 @@ def check_pair(root, idx, pair, all_pairs, variants, seed):
             res["viol"] = ("generated-files-differ", "variant %d (%s, nd seed %d): %s differ from the baseline run" % (vi, hist, nd, diff[:4]), {"variant": vi, "history": hist, "nd_seed": nd, "files": diff[:8]})
             # keep both versions of the first differing file for the report
             break
-    ndl = os.path.join(pd, "nd.log")
-    if os.path.exists(ndl):
-        for l in open(ndl).read().splitlines():
-            f = l.split()
-            if len(f) >= 6:
-                res["nd"][0] += int(f[1]); res["nd"][1] += int(f[3]); res["nd"][2] += int(f[5])
+    harvest()
     shutil.rmtree(pd, ignore_errors=True)
     return res
 
@@ -203,7 +234,7 @@ def main():
             "distinct_nontrivial": nontriv,
             "rule": "one evaluation = one perturbed mfront run of an (input, interface) pair compared byte-for-byte (files written by that run, exit status, messages) with the unperturbed baseline run of the same pair in the same scratch path; "
                     "pairs are all .mfront files of mfront/tests/{properties,behaviours,models} x the interfaces the pinned suite uses (a seeded sample in the quick tier); variants: fresh directory with a new simulator seed, repeated run, "
-                    "after two other inputs, after the same input with another interface, permuted environment; non-trivial = the baseline run generated at least one file; each (pair, variant, seed) is distinct",
+                    "after two other inputs, after the same input with another interface, permuted environment, last of three inputs treated by one mfront invocation; non-trivial = the baseline run generated at least one file; each (pair, variant, seed) is distinct",
             "samples": [{"pair": x["pair"], "files_generated": x["files"], "baseline_exit": x.get("baseline_rc"), "variants": x["variants"]} for x in results[:6]],
             "exhaustive": False,
             "pairs_checked": len(results), "pairs_in_corpus": len(pairs),
